@@ -809,7 +809,31 @@ Definition obs_eqb (a b : obs) : bool :=
   | _, _ => false
   end.
 
+(* ---------- second observable: the state & modes views held of every instance (own entry included):
+   (id, fsm, degraded, master, instance states) after each step ---------- *)
+Definition vrow := (Z * Z * bool * Z * list (Z * Z))%type.
+Definition views_of (n : node) : list vrow :=
+  map (fun kv => (fst kv, scode (sm_fsm (snd kv)), sm_degraded (snd kv), sm_master (snd kv),
+                  map (fun x => (fst x, icode (snd x))) (sm_insts (snd kv)))) (n_views n).
+Fixpoint run_views (n : node) (evs : list event) : list (list vrow) :=
+  match evs with
+  | [] => []
+  | e :: r => match step n e with
+              | Ok (n', _) => views_of n' :: run_views n' r
+              | Crash _ => []
+              end
+  end.
+Definition vrow_eqb (a b : vrow) : bool :=
+  match a, b with (a1, a2, a3, a4, a5), (b1, b2, b3, b4, b5) =>
+    Z.eqb a1 b1 && Z.eqb a2 b2 && Bool.eqb a3 b3 && Z.eqb a4 b4 && list_eqb zz_eqb a5 b5 end.
+
 Definition ncase := (node * list event * list obs)%type.
 Definition case_mismatch (c : ncase) : bool :=
   match c with (n, evs, o) => negb (list_eqb obs_eqb (run n evs) o) end.
 Definition mismatches (cs : list ncase) : list nat := find_idx case_mismatch cs.
+(* cases carrying both observables *)
+Definition vcase := (ncase * list (list vrow))%type.
+Definition view_mismatch (c : vcase) : bool :=
+  match c with ((n, evs, _), v) => negb (list_eqb (list_eqb vrow_eqb) (run_views n evs) v) end.
+Definition mismatches_v (cs : list vcase) : list nat :=
+  find_idx (fun c => case_mismatch (fst c) || view_mismatch c) cs.
